@@ -297,6 +297,9 @@ def oracle_pair(U, enc440, Version, sa: str, sb: str, grid) -> Optional[str]:
     for v in grid:
         if m.specifier.contains(v, prereleases=True) != m2.specifier.contains(v, prereleases=True):
             return f"merge is not commutative on version {v}"
+    mk = lambda r: str(r.marker) if getattr(r, "marker", None) else None      # noqa: E731
+    if mk(m) != mk(m2):
+        return f"merge is not commutative (marker {mk(m)!r} one way, {mk(m2)!r} the other)"
     return None
 
 
